@@ -50,26 +50,26 @@ type Usage struct {
 }
 
 type Step struct {
-	A       string   `json:"a"`
-	U       string   `json:"u"`
-	S       string   `json:"s"`
-	C       string   `json:"c"`
-	Onetime bool     `json:"onetime"`
-	Ett     string   `json:"ett"` // oneTimeEventType ("" = absent)
+	A       string `json:"a"`
+	U       string `json:"u"`
+	S       string `json:"s"`
+	C       string `json:"c"`
+	Onetime bool   `json:"onetime"`
+	Ett     string `json:"ett"` // oneTimeEventType ("" = absent)
 	// Fault: "abmf" = the account balance function cannot be reached while this request is served
-	Fault string `json:"fault"`
-	Kind  string `json:"kind"` // badcreate: what is wrong with the request
-	Usage   []Usage  `json:"usage"`
-	Trig    []string `json:"trig"`
-	Rg      string   `json:"rg"`
-	Amt     int64    `json:"amt"`
-	Ans     int    `json:"ans"` // recharge: status the consumer's notification endpoint answers with (0 = 204)
-	Addr    string `json:"addr"` // create: which address members the consumer identification carries
-	Upf     string `json:"upf"`  // update/release: UPF identifier of the usage entries (default "upf"+session label)
-	Nfc     bool   `json:"nfc"`  // update/release: repeat the consumer identification of the create
-	Pad     int      `json:"pad"`
-	Chid    int32    `json:"chid"`
-	Tz      *int     `json:"tz"` // seconds east of UTC to install as time.Local before the step
+	Fault string   `json:"fault"`
+	Kind  string   `json:"kind"` // badcreate: what is wrong with the request
+	Usage []Usage  `json:"usage"`
+	Trig  []string `json:"trig"`
+	Rg    string   `json:"rg"`
+	Amt   int64    `json:"amt"`
+	Ans   int      `json:"ans"`  // recharge: status the consumer's notification endpoint answers with (0 = 204)
+	Addr  string   `json:"addr"` // create: which address members the consumer identification carries
+	Upf   string   `json:"upf"`  // update/release: UPF identifier of the usage entries (default "upf"+session label)
+	Nfc   bool     `json:"nfc"`  // update/release: repeat the consumer identification of the create
+	Pad   int      `json:"pad"`
+	Chid  int32    `json:"chid"`
+	Tz    *int     `json:"tz"` // seconds east of UTC to install as time.Local before the step
 }
 
 type Behaviour struct {
